@@ -7,6 +7,7 @@ package main
 import (
 	"cmp"
 	"encoding/json"
+	"math"
 	"math/rand"
 	"slices"
 
@@ -18,10 +19,26 @@ func init() {
 	props["C12"] = &Prop{Run: runC12, Replay: replayC12}
 }
 
-func c11rec(lhs, rhs []int) Ev {
-	ev := Ev{"op": "new", "lhs": ints(lhs), "rhs": ints(rhs), "script": []any{}, "lhs2": []int{}, "rhs2": []int{}}
+// views returns the two inputs as views of ONE backing array when alias is set
+// (alias = [lo1, hi1, lo2, hi2] into buf), else as independent copies.
+func views(buf, lhs, rhs, alias []int) ([]int, []int) {
+	if len(alias) == 4 {
+		b := slices.Clone(buf)
+		return b[alias[0]:alias[1]], b[alias[2]:alias[3]]
+	}
+	return slices.Clone(lhs), slices.Clone(rhs)
+}
+
+func c11rec(lhs, rhs []int) Ev { return c11recA(nil, lhs, rhs, nil) }
+
+func c11recA(buf, lhs, rhs, alias []int) Ev {
+	if len(alias) == 4 {
+		lhs, rhs = buf[alias[0]:alias[1]], buf[alias[2]:alias[3]]
+	}
+	ev := Ev{"op": "new", "lhs": ints(slices.Clone(lhs)), "rhs": ints(slices.Clone(rhs)), "script": []any{}, "lhs2": []int{}, "rhs2": []int{},
+		"buf": ints(buf), "alias": ints(alias)}
 	guard(ev, func() {
-		l2, r2 := slices.Clone(lhs), slices.Clone(rhs)
+		l2, r2 := views(buf, lhs, rhs, alias)
 		es := slice.EditScript(l2, r2)
 		script := make([]any, 0, len(es))
 		for _, e := range es {
@@ -35,8 +52,34 @@ func c11rec(lhs, rhs []int) Ev {
 
 func replayC11(c *Ctx, h *Hist, ops []Op) {
 	for _, op := range ops {
-		h.Emit(c11rec(getis(op, "lhs"), getis(op, "rhs")))
+		h.Emit(c11recA(getis(op, "buf"), getis(op, "lhs"), getis(op, "rhs"), getis(op, "alias")))
 	}
+}
+
+// aliasCases: both arguments are windows of one buffer (prefixes of different
+// length, overlapping and disjoint windows, the same window twice)
+func aliasCases(rng *rand.Rand) (buf []int, alias []int) {
+	n := 1 + rng.Intn(14)
+	buf = make([]int, n)
+	for i := range buf {
+		buf[i] = 1 + rng.Intn(3)
+	}
+	a, b := rng.Intn(n+1), rng.Intn(n+1)
+	switch rng.Intn(5) {
+	case 0:
+		return buf, []int{0, n, 0, a} // whole vs shorter prefix
+	case 1:
+		return buf, []int{0, a, 0, n} // prefix vs whole
+	case 2:
+		return buf, []int{0, a, 0, b} // two prefixes
+	case 3:
+		if a > b {
+			a, b = b, a
+		}
+		return buf, []int{a, b, a, n} // same start inside the buffer
+	}
+	lo1, lo2 := rng.Intn(n+1), rng.Intn(n+1)
+	return buf, []int{lo1, lo1 + rng.Intn(n-lo1+1), lo2, lo2 + rng.Intn(n-lo2+1)}
 }
 
 type pairIn struct {
@@ -106,6 +149,11 @@ func runC11(c *Ctx) {
 	for _, p := range pairs {
 		c.NewHist("tlc-input").Emit(c11rec(p[0], p[1]))
 	}
+	for i := 0; i < c.Pick(1500, 30000); i++ {
+		rng := c.Rng("c11-alias", i)
+		buf, alias := aliasCases(rng)
+		c.NewHist("aliased-views").Emit(c11recA(buf, nil, nil, alias))
+	}
 	n := c.Pick(3000, 120000)
 	for i := 0; i < n; i++ {
 		rng := c.Rng("c11", i)
@@ -131,26 +179,52 @@ func runC11(c *Ctx) {
 
 // ---- C12 -----------------------------------------------------------------------
 
-func c12lcs(a, b []int) Ev {
-	ev := Ev{"op": "new", "kind": "lcs", "a": ints(a), "b": ints(b), "out": []int{}, "outf": []int{}, "a2": []int{}, "b2": []int{},
+func c12lcs(a, b []int) Ev { return c12lcsA(nil, a, b, nil) }
+
+func c12lcsA(buf, a, b, alias []int) Ev {
+	if len(alias) == 4 {
+		a, b = buf[alias[0]:alias[1]], buf[alias[2]:alias[3]]
+	}
+	ev := Ev{"op": "new", "kind": "lcs", "a": ints(slices.Clone(a)), "b": ints(slices.Clone(b)), "buf": ints(buf), "alias": ints(alias), "mag": 0, "out": []int{}, "outf": []int{}, "a2": []int{}, "b2": []int{},
 		"vs": []int{}, "rev": false, "lis": []int{}, "lnds": []int{}, "lisf": []int{}, "lndsf": []int{}, "vs2": []int{}}
 	guard(ev, func() {
-		a2, b2 := slices.Clone(a), slices.Clone(b)
-		ev["out"] = ints(slice.LCS(a2, b2))
-		ev["outf"] = ints(slice.LCSFunc(a2, b2, func(x, y int) bool { return x == y }))
+		a2, b2 := views(buf, a, b, alias)
+		ev["out"] = ints(slices.Clone(slice.LCS(a2, b2)))
+		ev["outf"] = ints(slices.Clone(slice.LCSFunc(a2, b2, func(x, y int) bool { return x == y })))
 		ev["a2"], ev["b2"] = ints(a2), ints(b2)
 	})
 	return ev
 }
 
-func c12lis(vs []int, rev bool) Ev {
-	ev := Ev{"op": "new", "kind": "lis", "a": []int{}, "b": []int{}, "out": []int{}, "outf": []int{}, "a2": []int{}, "b2": []int{},
+func c12lis(vs []int, rev bool) Ev { return c12lisM(vs, rev, 0) }
+
+func c12lisM(vs []int, rev bool, mag int) Ev {
+	ev := Ev{"op": "new", "kind": "lis", "buf": []int{}, "alias": []int{}, "mag": mag, "a": []int{}, "b": []int{}, "out": []int{}, "outf": []int{}, "a2": []int{}, "b2": []int{},
 		"vs": ints(vs), "rev": rev, "lis": []int{}, "lnds": []int{}, "lisf": []int{}, "lndsf": []int{}, "vs2": []int{}}
 	guard(ev, func() {
 		v2 := slices.Clone(vs)
-		cf := cmp.Compare[int]
+		sign := 1
 		if rev {
-			cf = func(a, b int) int { return 7 * (b - a) }
+			sign = -1
+		}
+		cf := cmp.Compare[int]
+		switch { // any magnitude is a legal comparator result
+		case mag == 2:
+			cf = func(a, b int) int { return sign * ((a - b) << 32) }
+		case mag == 3:
+			cf = func(a, b int) int { return sign * ((a - b) << 31) }
+		case mag == 4:
+			cf = func(a, b int) int {
+				switch c := sign * cmp.Compare(a, b); {
+				case c < 0:
+					return math.MinInt
+				case c > 0:
+					return math.MaxInt
+				}
+				return 0
+			}
+		case rev || mag == 1:
+			cf = func(a, b int) int { return sign * 7 * (a - b) }
 		}
 		ev["lisf"] = ints(slice.LISFunc(v2, cf))
 		ev["lndsf"] = ints(slice.LNDSFunc(v2, cf))
@@ -168,9 +242,9 @@ func c12lis(vs []int, rev bool) Ev {
 func replayC12(c *Ctx, h *Hist, ops []Op) {
 	for _, op := range ops {
 		if gets(op, "kind") == "lcs" {
-			h.Emit(c12lcs(getis(op, "a"), getis(op, "b")))
+			h.Emit(c12lcsA(getis(op, "buf"), getis(op, "a"), getis(op, "b"), getis(op, "alias")))
 		} else {
-			h.Emit(c12lis(getis(op, "vs"), getb(op, "rev")))
+			h.Emit(c12lisM(getis(op, "vs"), getb(op, "rev"), geti(op, "mag")))
 		}
 	}
 }
@@ -180,9 +254,15 @@ func runC12(c *Ctx) {
 	for _, p := range pairs {
 		c.NewHist("tlc-lcs").Emit(c12lcs(p[0], p[1]))
 	}
-	for _, s := range seqs {
+	for i, s := range seqs {
 		c.NewHist("tlc-lis").Emit(c12lis(s, false))
 		c.NewHist("tlc-lis").Emit(c12lis(s, true))
+		c.NewHist("tlc-lis-mag").Emit(c12lisM(s, i%2 == 0, 2+i%3))
+	}
+	for i := 0; i < c.Pick(800, 20000); i++ {
+		rng := c.Rng("c12-alias", i)
+		buf, alias := aliasCases(rng)
+		c.NewHist("aliased-lcs").Emit(c12lcsA(buf, nil, nil, alias))
 	}
 	// "refine": a long increasing run, then an echo of a value a fixed distance
 	// before the end, then a run that refines the gap above it - every tail
@@ -228,7 +308,7 @@ func runC12(c *Ctx) {
 			for j := range vs {
 				vs[j] = rng.Intn(6)
 			}
-			c.NewHist("random-lis").Emit(c12lis(vs, rng.Intn(2) == 0))
+			c.NewHist("random-lis").Emit(c12lisM(vs, rng.Intn(2) == 0, rng.Intn(5)))
 		case 2: // long, mostly monotone with plateaus and echoes of earlier values
 			n := 40 + rng.Intn(c.Pick(50, 110))
 			rev := rng.Intn(2) == 0
